@@ -141,6 +141,15 @@ def s_literal_lookalike2(rng):
     return {'target': List[Literal[0]]}, lambda o: (_q(List[Literal[False]]), _q(List[Literal[0, False]]))
 
 
+def s_hash_collision(rng):
+    """Unequal hints with equal hash(): hash(-1) == hash(-2) and hash(n) == hash(n + 2**61 - 1) in CPython."""
+    a, b = rng.choice([(-1, -2), (-2, -1), (0, 2 ** 61 - 1), (1, 2 ** 61), (5, 5 + 2 ** 61 - 1)])
+    mk = rng.choice([lambda v: Literal[v], lambda v: List[Literal[v]], lambda v: Optional[Literal[v]],
+                     lambda v: Dict[str, Literal[v]], lambda v: Tuple[Literal[v], int], lambda v: Literal[v, 'a']])
+    old, target = mk(a), mk(b)
+    return {'target': target, 'note': f'literals {a} / {b} hash alike'}, lambda o: _q(old, a, b, [a], [b], {'k': a}, (a, 1))
+
+
 def s_annotated_meta(rng):
     return {'target': Annotated[int, True]}, lambda o: (_q(Annotated[int, 1]), _q(Annotated[int, 1.0]))
 
@@ -385,7 +394,7 @@ def s_conf_lookalikes(rng):
     return {'target': target, 'confkw': tkw, 'note': f'{target} under {tkw} after every other configuration'}, hist
 
 
-SCRIPTS = [s_grammar_conf_mix, s_conf_lookalikes, s_same_repr, s_union_order, s_literal_lookalike, s_literal_lookalike2, s_annotated_meta, s_class_redefined, s_id_reuse,
+SCRIPTS = [s_grammar_conf_mix, s_conf_lookalikes, s_same_repr, s_hash_collision, s_union_order, s_literal_lookalike, s_literal_lookalike2, s_annotated_meta, s_class_redefined, s_id_reuse,
            s_clear_caches, s_failing_forward_ref, s_similar_containers, s_failing_hint_first,
            s_string_ref_rebound, s_string_ref_class_rebound, s_string_ref_ignorable_first]
 
@@ -399,6 +408,8 @@ def cases(tier, seed):
             reps = 6 if tier == 'quick' else 40
         elif sc is s_same_repr:
             reps = 16 if tier == 'quick' else 200
+        elif sc is s_hash_collision:
+            reps = 8 if tier == 'quick' else 60
         elif sc is s_string_ref_ignorable_first:
             reps = 6 if tier == 'quick' else 30
         else:
